@@ -177,12 +177,19 @@ func (h *harness) opBdbX(b []byte, how string, model bool) {
 	lr.hdrLen, lr.hdrAlign = 26, int64(ps)
 	nh := 0
 	walkReads, sections := -1, 0
+	var walkAlloc uint64
 	out := guard(func() string {
 		var db bdb.PackageDB
-		if err := db.Parse(lr); err != nil {
+		var hs []io.ReaderAt
+		var err, perr error
+		walkAlloc = allocDuring(func() {
+			if perr = db.Parse(lr); perr == nil {
+				hs, err = db.AllHeaders(context.Background())
+			}
+		})
+		if perr != nil {
 			return "err:parse"
 		}
-		hs, err := db.AllHeaders(context.Background())
 		walkReads = lr.reads
 		if err != nil {
 			return "err:headers"
@@ -229,6 +236,8 @@ func (h *harness) opBdbX(b []byte, how string, model bool) {
 				worstPage, worst, lr.reads, len(b), out, wit()))
 		case walkReads > len(b)+64:
 			h.fail("", fmt.Sprintf("bdb-reads-not-linear: Parse + AllHeaders made %d reads of a %d-byte database %s", walkReads, len(b), wit()))
+		case walkAlloc > dbAllocBound(len(b)):
+			h.fail("", fmt.Sprintf("bdb-allocation-out-of-proportion: Parse + AllHeaders allocated %d bytes for a %d-byte database %s", walkAlloc, len(b), wit()))
 		case sections > len(b)/ps+1:
 			h.fail("", fmt.Sprintf("bdb-headers-hold-more-sections-than-pages: %d sections, %d pages %s", sections, len(b)/ps+1, wit()))
 		}
@@ -298,10 +307,16 @@ func (h *harness) bdbFanStream() {
 func (h *harness) ndbRun(lr *limitReader, b []byte) string {
 	return guard(func() string {
 		var db ndb.PackageDB
-		if err := db.Parse(lr); err != nil {
+		var hs []io.ReaderAt
+		var err, perr error
+		h.ndbAlloc = allocDuring(func() {
+			if perr = db.Parse(lr); perr == nil {
+				hs, err = db.AllHeaders(context.Background())
+			}
+		})
+		if perr != nil {
 			return "err:parse"
 		}
-		hs, err := db.AllHeaders(context.Background())
 		if err != nil {
 			return "err:headers"
 		}
@@ -332,6 +347,9 @@ func (h *harness) opNdb(b []byte, how string) {
 			cls = knownNdbQuadratic
 		}
 		h.fail(cls, fmt.Sprintf("ndb-reads-out-of-proportion bytes-read=%d file-bytes=%d how=%s db=%s", lr.bytes, len(b), how, hx.Hex(b)))
+	}
+	if out != "panic" && out != "hang" && h.ndbAlloc > dbAllocBound(len(b)) {
+		h.fail("", fmt.Sprintf("ndb-allocation-out-of-proportion: Parse + AllHeaders allocated %d bytes for a %d-byte database how=%s db=%s", h.ndbAlloc, len(b), how, hx.Hex(b)))
 	}
 	switch out {
 	case "panic":
